@@ -39,7 +39,7 @@ func runC03(w *World) {
 	var wantNotif *corebgp.Notification
 	if variant == 2 {
 		notifAt = w.Draw(nmsg, "notifat")
-		wantNotif = &corebgp.Notification{Code: 3, Subcode: byte(w.Draw(12, "nsub")), Data: w.RandBytes(w.Draw(20, "ndl"), "nd")}
+		wantNotif = &corebgp.Notification{Code: 3, Subcode: byte(w.Draw(12, "nsub")), Data: w.RandBytes(w.NotifDataLen(20, "ndl"), "nd")}
 	}
 	w.NoStall = variant != 4
 	s := NewStd1(w, Std1Opts{Dir: dir, Passive: dir == DirIn && w.Draw(2, "passive") == 1, LocalHold: hold, RemoteHold: 90, Vary: true,
